@@ -134,6 +134,10 @@ static void run_prog(void* arg)
     // thread has not been joined - it must fail and must not disturb the thread that is running
     else if(!strcmp(f, "mstart")) { thr[t] = new Thread; runnerA[t].v = t * 100 + i; r = thr[t]->start(runnerA[t], &Runner::run); sched_event("\"op\":\"started\",\"t\":%d,\"v\":%d", t, t * 100 + i); }
     else if(!strcmp(f, "restart")) { runnerB[t].v = t * 100 + 50 + i; r = thr[t] ? (int)thr[t]->start(runnerB[t], &Runner::run) : 0; }
+    // startf: a start() whose thread creation fails (injected EAGAIN): returns false and leaves the Thread startable;
+    // startagain: start() on the same object after that - succeeds, and join() returns this function's result
+    else if(!strcmp(f, "startf")) { thr[t] = new Thread; sched_fail_next_create(); r = thr[t]->start(child_proc, (void*)(long)(t * 100 + 60 + i)); }
+    else if(!strcmp(f, "startagain")) { r = thr[t] ? (int)thr[t]->start(child_proc, (void*)(long)(t * 100 + i)) : 0; if(r) sched_event("\"op\":\"started\",\"t\":%d,\"v\":%d", t, t * 100 + i); }
     else if(!strcmp(f, "join")) { r = thr[t] ? (int)thr[t]->join() : -1; }
     else { sched_fail("scenario: unknown op %s", op); }
     sched_event("\"op\":\"ret\",\"t\":%d,\"f\":\"%s\",\"r\":%d", t, lf, r);
